@@ -1,4 +1,5 @@
 pub mod c02;
+pub mod c03;
 pub mod life;
 
 use crate::explore::Harness;
@@ -20,6 +21,7 @@ pub struct Plan {
 pub fn plan(prop: &str, tier: Tier, seed: u64) -> Option<Plan> {
   match prop {
     "C02" => Some(c02::plan(tier, seed)),
+    "C03" => Some(c03::plan(tier, seed)),
     "C01" => Some(life::plan("C01", tier, seed)),
     "C05" => Some(life::plan("C05", tier, seed)),
     "C06" => Some(life::plan("C06", tier, seed)),
@@ -32,6 +34,7 @@ pub fn by_name(name: &str) -> Option<Arc<dyn Harness>> {
   let prop = name.split('/').next()?;
   match prop {
     "C02" => c02::by_name(name),
+    "C03" => c03::by_name(name),
     "C01" | "C05" | "C06" => life::by_name(name),
     _ => None,
   }
